@@ -19,8 +19,17 @@ False of the current code (kept at full strength, kernel-checked counterexample 
   * `C10_proof_sound`, `tamper_detected`: under `Function.Injective H` (hypothesis) and "the decoder inverts the honest
     encoder" (hypothesis), VerifyProof over ANY content-addressed database returns the true claim or fails, never panics
   * `C10_proof_complete`: the proof built by `Prove` (`proofNodes`) verifies to the true claim within `len(key)+1` nodes
+  * executable verifier (`verifyExec` = VerifyProof with the executable `decodeNode`), NO decoder hypothesis:
+    `decode_enc` (C10Decode: decodeNode (enc H s ++ rest) = collapse H s), `C10_proof_sound_exec`, `tamper_detected_exec`,
+    `C10_proof_complete_exec` (present and absent keys); hypotheses: 32-byte hash outputs, no collision between database
+    entries and honest path-node encodings (`NoColl`, implied by injectivity), data precondition `Sane`
+  * `root_canonical` (API level: same key → value map ⇒ same tree and root, inserts/updates/deletes in any order),
+    `encC_collapse` (hashed and unhashed node forms encode to the same bytes), `root_binding` / `enc_injective`
+    (same root ⇒ same tree, under collision-freeness on the node encodings of the two tries)
+  * `sane_runB` (with C10Sane.`sane_of_content`): the data precondition `Sane` holds for every trie built through `update`
+    from keys < 2^31 bytes and values < 2^32 bytes
 -/
-import LinkVerif.Props.C10Complete
+import LinkVerif.Props.C10Sane
 
 namespace Props.C10
 open Model.Trie
@@ -252,34 +261,37 @@ def C10_history_free_with_deletes_statement : Prop :=
 
 /-- HISTORY FREE with deletions: any two histories of inserts, overwrites and deletes from the empty trie that leave the
 same content produce the same tree (hence the same root for any hash) -/
-theorem C10_history_free_with_deletes : C10_history_free_with_deletes_statement := by
+theorem runD_spec : ∀ (ops : List (List Nib × Option Bytes)) (n : Node), RootWF n → (∀ kv ∈ ops, HexKey kv.1) →
+    ∃ n', runD ops n = some n' ∧ RootWF n' ∧
+      ∀ key, HexKey key → Model.Trie.get n' key = contentD ops (Model.Trie.get n) key := by
   have hd := C10_delete
-  have spec : ∀ (ops : List (List Nib × Option Bytes)) (n : Node), RootWF n → (∀ kv ∈ ops, HexKey kv.1) →
-      ∃ n', runD ops n = some n' ∧ RootWF n' ∧ ∀ key, HexKey key → Model.Trie.get n' key = contentD ops (Model.Trie.get n) key := by
-    have cong : ∀ (key : List Nib) (ops : List (List Nib × Option Bytes)) (f g : List Nib → Option Bytes), f key = g key →
-        contentD ops f key = contentD ops g key := by
-      intro key ops
-      induction ops with
-      | nil => intro f g h; exact h
-      | cons o ops ih => intro f g h; exact ih _ _ (by simp only [h])
-    intro ops
+  have cong : ∀ (key : List Nib) (ops : List (List Nib × Option Bytes)) (f g : List Nib → Option Bytes), f key = g key →
+      contentD ops f key = contentD ops g key := by
+    intro key ops
     induction ops with
-    | nil => intro n hn _; exact ⟨n, rfl, hn, fun _ _ => rfl⟩
-    | cons o ops ih =>
-      intro n hn hk
-      obtain ⟨k, ov⟩ := o
-      have hk0 : HexKey k := hk (k, ov) (by simp)
-      cases ov with
-      | some v =>
-        obtain ⟨n1, h1, hw, hv, _, hg⟩ := insert_spec v n false k hn hk0
-        obtain ⟨n', h2, hw', hg'⟩ := ih n1 (Or.inr ⟨hw, hv⟩) (fun kv h => hk kv (by simp [h]))
-        refine ⟨n', by simp [runD, h1, h2], hw', fun key hkey => ?_⟩
-        rw [hg' key hkey]; exact cong key ops _ _ (hg key hkey)
-      | none =>
-        obtain ⟨n1, h1, hw, hg⟩ := hd n k hn hk0
-        obtain ⟨n', h2, hw', hg'⟩ := ih n1 hw (fun kv h => hk kv (by simp [h]))
-        refine ⟨n', by simp [runD, h1, h2], hw', fun key hkey => ?_⟩
-        rw [hg' key hkey]; exact cong key ops _ _ (hg key hkey)
+    | nil => intro f g h; exact h
+    | cons o ops ih => intro f g h; exact ih _ _ (by simp only [h])
+  intro ops
+  induction ops with
+  | nil => intro n hn _; exact ⟨n, rfl, hn, fun _ _ => rfl⟩
+  | cons o ops ih =>
+    intro n hn hk
+    obtain ⟨k, ov⟩ := o
+    have hk0 : HexKey k := hk (k, ov) (by simp)
+    cases ov with
+    | some v =>
+      obtain ⟨n1, h1, hw, hv, _, hg⟩ := insert_spec v n false k hn hk0
+      obtain ⟨n', h2, hw', hg'⟩ := ih n1 (Or.inr ⟨hw, hv⟩) (fun kv h => hk kv (by simp [h]))
+      refine ⟨n', by simp [runD, h1, h2], hw', fun key hkey => ?_⟩
+      rw [hg' key hkey]; exact cong key ops _ _ (hg key hkey)
+    | none =>
+      obtain ⟨n1, h1, hw, hg⟩ := hd n k hn hk0
+      obtain ⟨n', h2, hw', hg'⟩ := ih n1 hw (fun kv h => hk kv (by simp [h]))
+      refine ⟨n', by simp [runD, h1, h2], hw', fun key hkey => ?_⟩
+      rw [hg' key hkey]; exact cong key ops _ _ (hg key hkey)
+
+theorem C10_history_free_with_deletes : C10_history_free_with_deletes_statement := by
+  have spec := runD_spec
   intro ops₁ ops₂ h₁ h₂ hc
   obtain ⟨n1, r1, w1, g1⟩ := spec ops₁ .nil rootWF_nil h₁
   obtain ⟨n2, r2, w2, g2⟩ := spec ops₂ .nil rootWF_nil h₂
@@ -398,9 +410,9 @@ database, `VerifyProof` either reports an error (or, in the model, runs out of f
 true of the content; it never panics.  `H` collision-free and "the decoder inverts the honest encoder on the nodes on the way to `key`" are hypotheses. -/
 def C10_proof_sound_statement : Prop :=
   ∀ (H : Bytes → Bytes), Function.Injective H →
-  ∀ (decode : Bytes → Option CNode) (db : Bytes → Option Bytes), (∀ h b, db h = some b → H b = h) →
+  ∀ (decode : Bytes → Dec CNode) (db : Bytes → Option Bytes), (∀ h b, db h = some b → H b = h) →
   ∀ (fuel : Nat) (s : Node) (key : List Nib), RootWF s → s.isNil = false → HexKey key →
-    (∀ t ∈ path s key, WF t → decode (enc H t) = some (collapse H t)) →
+    (∀ t ∈ path s key, WF t → decode (enc H t) = .ok (collapse H t)) →
     verify H decode db fuel (root H s) key = claimOf s key ∨
     verify H decode db fuel (root H s) key = .error ∨
     verify H decode db fuel (root H s) key = .fuel
@@ -421,9 +433,9 @@ theorem C10_proof_sound : C10_proof_sound_statement := by
 /-- TAMPER DETECTED: take the honest proof, alter / drop / add any nodes, store every node under the hash of its own
 bytes (`dbOf`, the convention of the in-tree TestBadProof): verification fails or returns the same, true claim -/
 theorem tamper_detected (H : Bytes → Bytes) (Hinj : Function.Injective H)
-    (decode : Bytes → Option CNode) (nodes : List Bytes) (fuel : Nat) (s : Node) (key : List Nib)
+    (decode : Bytes → Dec CNode) (nodes : List Bytes) (fuel : Nat) (s : Node) (key : List Nib)
     (hs : RootWF s) (hne : s.isNil = false) (hk : HexKey key)
-    (hdec : ∀ t ∈ path s key, WF t → decode (enc H t) = some (collapse H t)) :
+    (hdec : ∀ t ∈ path s key, WF t → decode (enc H t) = .ok (collapse H t)) :
     verify H decode (dbOf H nodes) fuel (root H s) key = claimOf s key ∨
     verify H decode (dbOf H nodes) fuel (root H s) key = .error ∨
     verify H decode (dbOf H nodes) fuel (root H s) key = .fuel :=
@@ -432,8 +444,8 @@ theorem tamper_detected (H : Bytes → Bytes) (Hinj : Function.Injective H)
 /-- FULL STATEMENT (completeness): the proof built by `Prove` verifies to the true claim (non-empty trie) -/
 def C10_proof_complete_statement : Prop :=
   ∀ (H : Bytes → Bytes), Function.Injective H →
-  ∀ (decode : Bytes → Option CNode) (s : Node) (key : List Nib), RootWF s → s.isNil = false → HexKey key →
-    (∀ t ∈ path s key, WF t → decode (enc H t) = some (collapse H t)) →
+  ∀ (decode : Bytes → Dec CNode) (s : Node) (key : List Nib), RootWF s → s.isNil = false → HexKey key →
+    (∀ t ∈ path s key, WF t → decode (enc H t) = .ok (collapse H t)) →
     verify H decode (dbOf H (proofNodes H s key)) (key.length + 1) (root H s) key = claimOf s key
 
 theorem proofNodes_mem (H : Bytes → Bytes) (s : Node) (key : List Nib) (t : Node) (ht : t ∈ path s key)
@@ -475,13 +487,13 @@ theorem C10_proof_complete : C10_proof_complete_statement := by
 the honest proof verifies to the stored value, and every content-addressed database yields that claim or an error -/
 example :
     let s : Node := .short (keybytesToHex [1]) (.value [7])
-    let decode : Bytes → Option CNode := fun b => if b = enc id s then some (collapse id s) else none
+    let decode : Bytes → Dec CNode := fun b => if b = enc id s then .ok (collapse id s) else .err
     verify id decode (dbOf id (proofNodes id s (keybytesToHex [1]))) ((keybytesToHex [1]).length + 1) (root id s) (keybytesToHex [1])
       = .value [7] := by
   intro s decode
   have hw : RootWF s := Or.inr ⟨⟨keyOK_of_suf (keybytesToHex_hex [1]).1 (by simp [keybytesToHex]), rfl, trivial⟩, rfl⟩
   have hk := keybytesToHex_hex [1]
-  have hdec : ∀ t ∈ path s (keybytesToHex [1]), WF t → decode (enc id t) = some (collapse id t) := by
+  have hdec : ∀ t ∈ path s (keybytesToHex [1]), WF t → decode (enc id t) = .ok (collapse id t) := by
     intro t ht _
     have : t = s := by simpa [path, s, keybytesToHex, strip] using ht
     subst this; simp [decode]
@@ -490,5 +502,391 @@ example :
   have hg : Model.Trie.get s (keybytesToHex [1]) = some [7] := by
     simp [s, strip_eq_some.mpr (List.append_nil _).symm, Model.Trie.get]
   simp [claimOf, hg]
+
+
+/-! ## 7. The executable verifier: no decoder hypothesis -/
+
+/-- FULL STATEMENT (soundness of the executable VerifyProof model, `decodeNode` included).  Hypotheses: 32-byte hash
+outputs; no collision between a database entry and an honest node encoding on the way to the key (implied by
+`Function.Injective H`); data precondition `Sane` (node encodings shorter than 2^64 bytes, no empty stored value). -/
+def C10_proof_sound_exec_statement : Prop :=
+  ∀ (H : Bytes → Bytes), H32 H →
+  ∀ (db : Bytes → Option Bytes), (∀ h b, db h = some b → H b = h) →
+  ∀ (fuel : Nat) (s : Node) (key : List Nib), RootWF s → s.isNil = false → Sane H s → HexKey key → NoColl H db s key →
+    verifyExec H db fuel (root H s) key = claimOf s key ∨
+    verifyExec H db fuel (root H s) key = .error ∨
+    verifyExec H db fuel (root H s) key = .fuel
+
+theorem C10_proof_sound_exec : C10_proof_sound_exec_statement := by
+  intro H h32 db hdb fuel s key hs hne hsane hk hcoll
+  rcases hs with h | ⟨hw, hv⟩
+  · rw [h] at hne; cases hne
+  · obtain ⟨h1, h2, h3⟩ := verifyExec_sound H h32 db hdb fuel s key hw hv hk hsane hcoll
+    unfold root claimOf
+    cases hr : verifyExec H db fuel (H (enc H s)) key with
+    | value x => left; rw [h1 x hr]
+    | absent => left; rw [h2 hr]
+    | error => right; left; rfl
+    | fuel => right; right; rfl
+    | panic => exact absurd hr h3
+
+/-- TAMPER DETECTED, executable verifier: any list of node bytes stored under their own hashes -/
+theorem tamper_detected_exec (H : Bytes → Bytes) (h32 : H32 H) (nodes : List Bytes) (fuel : Nat) (s : Node)
+    (key : List Nib) (hs : RootWF s) (hne : s.isNil = false) (hsane : Sane H s) (hk : HexKey key)
+    (hcoll : NoColl H (dbOf H nodes) s key) :
+    verifyExec H (dbOf H nodes) fuel (root H s) key = claimOf s key ∨
+    verifyExec H (dbOf H nodes) fuel (root H s) key = .error ∨
+    verifyExec H (dbOf H nodes) fuel (root H s) key = .fuel :=
+  C10_proof_sound_exec H h32 (dbOf H nodes) (dbOf_content_addressed H nodes) fuel s key hs hne hsane hk hcoll
+
+/-- FULL STATEMENT (completeness, executable verifier): for every key, present or absent, of a non-empty trie the proof
+emitted by `Prove` is accepted with the true claim (value, or absence) -/
+def C10_proof_complete_exec_statement : Prop :=
+  ∀ (H : Bytes → Bytes), H32 H → ∀ (s : Node) (key : List Nib), RootWF s → s.isNil = false → Sane H s → HexKey key →
+    (∀ x ∈ proofNodes H s key, ∀ t ∈ path s key, H x = H (enc H t) → x = enc H t) →
+    verifyExec H (dbOf H (proofNodes H s key)) (key.length + 1) (root H s) key = claimOf s key
+
+theorem C10_proof_complete_exec : C10_proof_complete_exec_statement := by
+  intro H h32 s key hs hne hsane hk hcoll
+  rcases hs with h | ⟨hw, hv⟩
+  · rw [h] at hne; cases hne
+  · have hself := self_mem_path hw hv hk
+    have hhead : (path s key).head? = some s := by
+      cases key with
+      | nil => exact absurd (hk.2.mp rfl) (by simp)
+      | cons a as =>
+        cases s with
+        | nil => exact absurd hw (by simp [WF])
+        | value w => simp [Node.isValue] at hv
+        | short k c => simp [path]
+        | full c => simp [path]
+    unfold root claimOf
+    exact verifyExec_complete_aux H h32 (proofNodes H s key) (key.length + 1) s key hw hv hk (by omega) hsane hcoll
+      (proofNodes_mem H s key s hself (Or.inr hhead))
+      (fun t ht h32' => proofNodes_mem H s key t ht (Or.inl h32'))
+
+/-- a toy 32-byte "hash": pad with zeros / cut to 32 bytes -/
+def pad32 (b : Bytes) : Bytes := (b ++ List.replicate 32 0).take 32
+
+theorem pad32_h32 : H32 pad32 := by intro b; simp [pad32]
+
+/-- non-vacuity of the executable theorems: `pad32` has 32-byte outputs, a one-leaf trie is `Sane`, its one-node proof has
+no collision with itself; the honest proof is accepted with the stored value -/
+example :
+    verifyExec pad32 (dbOf pad32 (proofNodes pad32 (.short (keybytesToHex [1]) (.value [7])) (keybytesToHex [1])))
+      ((keybytesToHex [1]).length + 1) (root pad32 (.short (keybytesToHex [1]) (.value [7]))) (keybytesToHex [1])
+      = .value [7] := by
+  have hw : RootWF (.short (keybytesToHex [1]) (.value [7])) :=
+    Or.inr ⟨⟨keyOK_of_suf (keybytesToHex_hex [1]).1 (by simp [keybytesToHex]), rfl, trivial⟩, rfl⟩
+  have hsane : Sane pad32 (.short (keybytesToHex [1]) (.value [7])) := by
+    refine ⟨?_, by simp, by simp [Sz]⟩
+    have : (enc pad32 (.short (keybytesToHex [1]) (.value [7]))).length = 5 := by decide
+    rw [this]; simp [Sz]
+  have hp : path (.short (keybytesToHex [1]) (.value [7])) (keybytesToHex [1]) = [.short (keybytesToHex [1]) (.value [7])] := by
+    simp [path, keybytesToHex, strip]
+  have := C10_proof_complete_exec pad32 pad32_h32 _ (keybytesToHex [1]) hw rfl hsane (keybytesToHex_hex [1]) (by
+    intro x hx t ht _
+    rw [hp] at ht
+    simp only [List.mem_singleton] at ht
+    subst ht
+    simpa [proofNodes, hp] using hx)
+  rw [this]
+  have hg : Model.Trie.get (.short (keybytesToHex [1]) (.value [7])) (keybytesToHex [1]) = some [7] := by
+    simp [strip_eq_some.mpr (List.append_nil _).symm, Model.Trie.get]
+  simp [claimOf, hg]
+
+
+/-! ## 8. `root_canonical`: the root is a function of the key → value map alone (API level, bytes) -/
+
+theorem keybytesToHex_injective : ∀ (a b : Bytes), keybytesToHex a = keybytesToHex b → a = b
+  | [], [], _ => rfl
+  | [], y :: b, h => by
+    have := congrArg List.length h
+    cases b <;> simp [keybytesToHex] at this
+  | x :: a, [], h => by
+    have := congrArg List.length h
+    cases a <;> simp [keybytesToHex] at this
+  | x :: a, y :: b, h => by
+    rw [kbh_cons, kbh_cons] at h
+    simp only [List.cons.injEq] at h
+    obtain ⟨h1, h2, h3⟩ := h
+    have hx := x.toNat_lt
+    have hy := y.toNat_lt
+    have e1 : x.toNat / 16 = y.toNat / 16 := by
+      have := congrArg Fin.val h1
+      simp [Fin.ofNat] at this; omega
+    have e2 : x.toNat % 16 = y.toNat % 16 := by
+      have := congrArg Fin.val h2
+      simp [Fin.ofNat] at this; omega
+    have : x = y := UInt8.toNat_inj.mp (by omega)
+    rw [this, keybytesToHex_injective a b h3]
+
+/-- the key → value map an API history leaves (`Update` with an empty value deletes) -/
+def contentB : List (Bytes × Bytes) → (Bytes → Option Bytes) → Bytes → Option Bytes
+  | [], f => f
+  | (k, v) :: ops, f => contentB ops (fun key => if key = k then (if v.isEmpty then none else some v) else f key)
+
+/-- an API history as a HEX-key history with deletions -/
+def toD (ops : List (Bytes × Bytes)) : List (List Nib × Option Bytes) :=
+  ops.map fun kv => (keybytesToHex kv.1, if kv.2.isEmpty then none else some kv.2)
+
+theorem runB_eq_runD : ∀ (ops : List (Bytes × Bytes)) (n : Node), runB ops n = runD (toD ops) n
+  | [], _ => rfl
+  | (k, v) :: ops, n => by
+    simp only [runB, toD, List.map_cons, update]
+    by_cases hv : v.isEmpty = true
+    · simp only [hv, if_true, runD]
+      cases Model.Trie.delete n (keybytesToHex k) with
+      | none => rfl
+      | some n' => exact runB_eq_runD ops n'
+    · simp only [hv, Bool.false_eq_true, if_false, runD]
+      cases Model.Trie.insert n (keybytesToHex k) (.value v) with
+      | none => rfl
+      | some n' => exact runB_eq_runD ops n'
+
+theorem contentD_toD_in : ∀ (ops : List (Bytes × Bytes)) (F : List Nib → Option Bytes) (G : Bytes → Option Bytes),
+    (∀ bs, F (keybytesToHex bs) = G bs) → ∀ bs, contentD (toD ops) F (keybytesToHex bs) = contentB ops G bs
+  | [], _, _, h, bs => h bs
+  | (k, v) :: ops, F, G, h, bs => by
+    simp only [toD, List.map_cons, contentD, contentB]
+    apply contentD_toD_in ops
+    intro bs'
+    by_cases e : bs' = k
+    · simp [e]
+    · have : keybytesToHex bs' ≠ keybytesToHex k := fun e' => e (keybytesToHex_injective _ _ e')
+      simp [e, this, h bs']
+
+theorem contentD_toD_out : ∀ (ops : List (Bytes × Bytes)) (F : List Nib → Option Bytes) (key : List Nib),
+    (∀ bs, key ≠ keybytesToHex bs) → contentD (toD ops) F key = F key
+  | [], _, _, _ => rfl
+  | (k, v) :: ops, F, key, h => by
+    show contentD (toD ops) (fun key' => if key' = keybytesToHex k then (if v.isEmpty then none else some v) else F key') key = F key
+    rw [contentD_toD_out ops _ key h]
+    simp [h k]
+
+/-- FULL STATEMENT: any two API histories (insert / update / delete in any order and number) from the empty trie that
+leave the same key → value map produce the same tree, hence the same root for every hash function.  (Commit, reopen and
+cache unloading do not change the model's tree: they are identity in the model and tied by the differential run; what the
+database holds for a committed node re-encodes to the same bytes: `encC_collapse`, and decodes back: `decodeExec_enc`.) -/
+def C10_root_canonical_statement : Prop :=
+  ∀ (H : Bytes → Bytes) (ops₁ ops₂ : List (Bytes × Bytes)),
+    (∀ key, contentB ops₁ (fun _ => none) key = contentB ops₂ (fun _ => none) key) →
+    ∃ n, runB ops₁ .nil = some n ∧ runB ops₂ .nil = some n ∧
+      ∀ n₁ n₂, runB ops₁ .nil = some n₁ → runB ops₂ .nil = some n₂ → root H n₁ = root H n₂
+
+theorem root_canonical : C10_root_canonical_statement := by
+  intro H ops₁ ops₂ hc
+  have hhex : ∀ (ops : List (Bytes × Bytes)), ∀ kv ∈ toD ops, HexKey kv.1 := by
+    intro ops kv h
+    simp only [toD, List.mem_map] at h
+    obtain ⟨a, _, rfl⟩ := h
+    exact keybytesToHex_hex _
+  obtain ⟨n, h1, h2⟩ := C10_history_free_with_deletes (toD ops₁) (toD ops₂) (hhex ops₁) (hhex ops₂) (by
+    intro key _
+    by_cases hk : ∃ bs, key = keybytesToHex bs
+    · obtain ⟨bs, rfl⟩ := hk
+      rw [contentD_toD_in ops₁ _ (fun _ => none) (fun _ => rfl), contentD_toD_in ops₂ _ (fun _ => none) (fun _ => rfl)]
+      exact hc bs
+    · have hk' : ∀ bs, key ≠ keybytesToHex bs := fun bs e => hk ⟨bs, e⟩
+      rw [contentD_toD_out ops₁ _ key hk', contentD_toD_out ops₂ _ key hk'])
+  rw [← runB_eq_runD] at h1 h2
+  refine ⟨n, h1, h2, ?_⟩
+  intro a b ha hb
+  rw [h1] at ha; rw [h2] at hb; cases ha; cases hb; rfl
+
+/-- non-vacuity: insert two keys, delete a third that was inserted in between / overwrite: same map, same tree -/
+example : ∃ n, runB [([1], [7]), ([3], [8]), ([2], [9]), ([3], [])] .nil = some n ∧
+    runB [([2], [5]), ([1], [7]), ([2], [9])] .nil = some n := by
+  obtain ⟨n, h1, h2, _⟩ := root_canonical id [([1], [7]), ([3], [8]), ([2], [9]), ([3], [])]
+    [([2], [5]), ([1], [7]), ([2], [9])] (by
+      intro key
+      simp only [contentB]
+      by_cases a : key = [1] <;> by_cases b : key = [2] <;> by_cases c : key = [3] <;> simp_all)
+  exact ⟨n, h1, h2⟩
+
+/-- the encoding of a decoded / database-resident ("hashed") node: hash references are written as they are -/
+def encC : CNode → Bytes
+  | .nil => [0x80]
+  | .value v => rlpStr v
+  | .hash h => rlpStr h
+  | .short k c => rlpList (rlpStr (hexToCompact k) ++ encC c)
+  | .full c => rlpList ((List.finRange 17).flatMap (fun i => encC (c i)))
+
+/-- hashed and unhashed forms commit to the same bytes: re-encoding the collapsed (committed, reloaded) form of a node
+gives exactly the encoding of the in-memory node, for every node and every hash function — so hashing after a
+commit / reload / unload yields the same root -/
+theorem encC_collapse (H : Bytes → Bytes) : ∀ (n : Node), encC (collapse H n) = enc H n
+  | .nil => rfl
+  | .value _ => rfl
+  | .short k c => by
+    have ih := encC_collapse H c
+    simp only [collapse, enc]
+    by_cases hv : c.isValue = true
+    · simp [hv, encC, ih]
+    · by_cases hs : (enc H c).length < 32
+      · simp [hv, hs, encC, ih, embed]
+      · simp [hv, hs, encC, embed]
+  | .full c => by
+    simp only [collapse, enc, encC]
+    congr 1
+    rw [List.flatMap_def, List.flatMap_def]
+    congr 1
+    apply List.map_congr_left
+    intro i _
+    have ih := encC_collapse H (c i)
+    by_cases hi : i = term
+    · subst hi; simp [ih]
+    · by_cases hs : (enc H (c i)).length < 32
+      · simp [hi, hs, ih, embed]
+      · simp [hi, hs, encC, embed]
+
+
+/-! ## 9. Root binding: the root determines the content (the converse of `root_canonical`) -/
+
+theorem proofNodes_sub (H : Bytes → Bytes) (s : Node) (key : List Nib) (x : Bytes) (hx : x ∈ proofNodes H s key) :
+    ∃ t ∈ path s key, x = enc H t := by
+  unfold proofNodes at hx
+  cases hp : path s key with
+  | nil => rw [hp] at hx; simp at hx
+  | cons p ps =>
+    rw [hp] at hx
+    simp only [List.map_cons, List.mem_cons, List.mem_filter, List.mem_map] at hx
+    rcases hx with rfl | ⟨⟨t, ht, rfl⟩, _⟩
+    · exact ⟨p, by simp, rfl⟩
+    · exact ⟨t, by simp [ht], rfl⟩
+
+theorem claimOf_inj {a b : Node} {key : List Nib} (h : claimOf a key = claimOf b key) :
+    Model.Trie.get a key = Model.Trie.get b key := by
+  unfold claimOf at h
+  cases ha : Model.Trie.get a key <;> cases hb : Model.Trie.get b key <;> simp_all
+
+/-- ROOT BINDING: two non-empty normal-form tries with the same root are the same tree (so the root commits to exactly one
+key → value map), provided the hash does not collide on the node encodings of the two tries (on the paths to any key).
+Proved through the proof system: `Prove` on `a` is accepted against the common root (completeness), and what is accepted
+against `b`'s root is true of `b` (soundness); equal lookups give equal trees (`canonical`). -/
+theorem root_binding (H : Bytes → Bytes) (h32 : H32 H) (a b : Node) (ha : RootWF a) (hb : RootWF b)
+    (hna : a.isNil = false) (hnb : b.isNil = false) (hsa : Sane H a) (hsb : Sane H b)
+    (hcf : ∀ key, ∀ t1 ∈ path a key ++ path b key, ∀ t2 ∈ path a key ++ path b key,
+      H (enc H t1) = H (enc H t2) → enc H t1 = enc H t2)
+    (hroot : root H a = root H b) : a = b := by
+  apply canonical a b ha hb
+  intro key hk
+  have hc := C10_proof_complete_exec H h32 a key ha hna hsa hk (by
+    intro x hx t ht e
+    obtain ⟨t', ht', rfl⟩ := proofNodes_sub H a key x hx
+    exact hcf key t' (by simp [ht']) t (by simp [ht]) e)
+  have hs := C10_proof_sound_exec H h32 (dbOf H (proofNodes H a key)) (dbOf_content_addressed H _)
+    (key.length + 1) b key hb hnb hsb hk (by
+      intro h x t hd ht e
+      have hx : x ∈ proofNodes H a key := List.mem_of_find?_eq_some hd
+      obtain ⟨t', ht', rfl⟩ := proofNodes_sub H a key x hx
+      exact hcf key t' (by simp [ht']) t (by simp [ht]) e)
+  rw [← hroot, hc] at hs
+  rcases hs with h | h | h
+  · exact claimOf_inj h
+  · unfold claimOf at h; cases hg : Model.Trie.get a key <;> rw [hg] at h <;> cases h
+  · unfold claimOf at h; cases hg : Model.Trie.get a key <;> rw [hg] at h <;> cases h
+
+/-- injectivity of the node encoding on canonical (normal-form, non-empty) tries, under the same collision-freeness -/
+theorem enc_injective (H : Bytes → Bytes) (h32 : H32 H) (a b : Node) (ha : RootWF a) (hb : RootWF b)
+    (hna : a.isNil = false) (hnb : b.isNil = false) (hsa : Sane H a) (hsb : Sane H b)
+    (hcf : ∀ key, ∀ t1 ∈ path a key ++ path b key, ∀ t2 ∈ path a key ++ path b key,
+      H (enc H t1) = H (enc H t2) → enc H t1 = enc H t2)
+    (h : enc H a = enc H b) : a = b :=
+  root_binding H h32 a b ha hb hna hnb hsa hsb hcf (by unfold root; rw [h])
+
+
+/-- non-vacuity of `root_binding`: two different one-leaf tries satisfy every hypothesis (toy hash `pad32`), so their
+roots differ -/
+example : root pad32 (.short (keybytesToHex [1]) (.value [7])) ≠ root pad32 (.short (keybytesToHex [1]) (.value [8])) := by
+  intro hroot
+  have hw : ∀ v : Bytes, RootWF (.short (keybytesToHex [1]) (.value v)) := fun v =>
+    Or.inr ⟨⟨keyOK_of_suf (keybytesToHex_hex [1]).1 (by simp [keybytesToHex]), rfl, trivial⟩, rfl⟩
+  have hp : ∀ (v : Bytes) (key : List Nib) (t : Node), t ∈ path (.short (keybytesToHex [1]) (.value v)) key →
+      t = .short (keybytesToHex [1]) (.value v) := by
+    intro v key t ht
+    cases key with
+    | nil => simp [path] at ht
+    | cons a as =>
+      simp only [path, List.mem_cons] at ht
+      rcases ht with rfl | ht
+      · rfl
+      · cases hst : strip (keybytesToHex [1]) (a :: as) with
+        | none => rw [hst] at ht; simp at ht
+        | some r => rw [hst] at ht; cases r <;> simp [path] at ht
+  have h7 : Sane pad32 (.short (keybytesToHex [1]) (.value [7])) := by
+    refine ⟨?_, by simp, by simp [Sz]⟩
+    have : (enc pad32 (.short (keybytesToHex [1]) (.value [7]))).length = 5 := by decide
+    rw [this]; simp [Sz]
+  have h8 : Sane pad32 (.short (keybytesToHex [1]) (.value [8])) := by
+    refine ⟨?_, by simp, by simp [Sz]⟩
+    have : (enc pad32 (.short (keybytesToHex [1]) (.value [8]))).length = 5 := by decide
+    rw [this]; simp [Sz]
+  have hne : pad32 (enc pad32 (.short (keybytesToHex [1]) (.value [7]))) ≠
+      pad32 (enc pad32 (.short (keybytesToHex [1]) (.value [8]))) := by decide
+  have := root_binding pad32 pad32_h32 _ _ (hw [7]) (hw [8]) rfl rfl h7 h8 (by
+    intro key t1 ht1 t2 ht2 e
+    simp only [List.mem_append] at ht1 ht2
+    rcases ht1 with h1 | h1 <;> rcases ht2 with h2 | h2
+    · rw [hp _ key t1 h1, hp _ key t2 h2]
+    · rw [hp _ key t1 h1, hp _ key t2 h2] at e; exact absurd e hne
+    · rw [hp _ key t1 h1, hp _ key t2 h2] at e; exact absurd e.symm hne
+    · rw [hp _ key t1 h1, hp _ key t2 h2]) hroot
+  simp at this
+
+
+/-! ## 10. The data precondition `Sane` holds for every trie built through the API from bounded keys and values -/
+
+theorem contentD_some : ∀ (ops : List (List Nib × Option Bytes)) (F : List Nib → Option Bytes) (key : List Nib) (x : Bytes),
+    contentD ops F key = some x → F key = some x ∨ (key, some x) ∈ ops
+  | [], _, _, _, h => Or.inl h
+  | (k, ov) :: ops, F, key, x, h => by
+    simp only [contentD] at h
+    rcases contentD_some ops _ key x h with h' | h'
+    · by_cases e : key = k
+      · simp only [e, if_true] at h'
+        right; simp [e, h']
+      · simp only [e, if_false] at h'
+        exact Or.inl h'
+    · right; simp [h']
+
+theorem keybytesToHex_length (bs : Bytes) : (keybytesToHex bs).length = 2 * bs.length + 1 := by
+  induction bs with
+  | nil => rfl
+  | cons b bs ih => rw [kbh_cons]; simp only [List.length_cons, ih]; omega
+
+/-- every trie the API builds from keys shorter than 2^31 bytes and values shorter than 2^32 bytes satisfies `Sane`
+(so the executable proof theorems apply to it with hash hypotheses only) -/
+theorem sane_runB (H : Bytes → Bytes) (h32 : H32 H) (ops : List (Bytes × Bytes)) (n : Node)
+    (hb : ∀ kv ∈ ops, kv.1.length < 2 ^ 31 ∧ kv.2.length < 2 ^ 32) (hr : runB ops .nil = some n) :
+    RootWF n ∧ Sane H n := by
+  have hhex : ∀ kv ∈ toD ops, HexKey kv.1 := by
+    intro kv h
+    simp only [toD, List.mem_map] at h
+    obtain ⟨a, _, rfl⟩ := h
+    exact keybytesToHex_hex _
+  obtain ⟨n', h1, hw, hg⟩ := runD_spec (toD ops) .nil rootWF_nil hhex
+  rw [← runB_eq_runD, hr] at h1
+  cases h1
+  refine ⟨hw, sane_of_content H h32 n hw ?_⟩
+  intro kv hkv
+  have hk : HexKey kv.1 := toMap_keys n false hw kv hkv
+  have hget := (toMap_mem_iff n false hw kv.1 kv.2 hk).mp hkv
+  rw [hg kv.1 hk] at hget
+  rcases contentD_some (toD ops) _ kv.1 kv.2 hget with h0 | hm
+  · simp [Model.Trie.get] at h0
+  · simp only [toD, List.mem_map, Prod.mk.injEq] at hm
+    obtain ⟨⟨k, v⟩, hin, hk', hv'⟩ := hm
+    have hbv := hb (k, v) hin
+    simp only at hk' hv' hbv
+    by_cases hve : v.isEmpty = true
+    · simp [hve] at hv'
+    · simp only [hve, Bool.false_eq_true, if_false, Option.some.injEq] at hv'
+      rw [← hk', ← hv', keybytesToHex_length]
+      refine ⟨?_, ?_, hbv.2⟩
+      · have := hbv.1
+        have e31 : (2:Nat) ^ 31 = 2147483648 := by decide
+        rw [e31] at this; rw [two32]; omega
+      · intro e; rw [e] at hve; simp at hve
 
 end Props.C10
